@@ -188,8 +188,9 @@ def minimise(prop_id, mod, spec, sc, rule, budget_s=150, max_tests=120, decoy=No
         c = sp.get("service_config")
         if c:
             for e in c.get("methodConfig", []):
-                e["name"] = [n for n in e["name"] if f"{n['service']}.{n['method']}" in alive]
-            c["methodConfig"] = [e for e in c["methodConfig"] if e["name"]]
+                if "name" in e:
+                    e["name"] = [n for n in e["name"] if f"{n.get('service')}.{n.get('method')}" in alive]
+            c["methodConfig"] = [e for e in c["methodConfig"] if e.get("name") or "name" not in e]
 
     for fs in spec["files"]:
         for s in fs.get("services", ()):
